@@ -183,27 +183,136 @@ let state_string (st : Target.dt) =
   Buffer.add_string b (if Raster.rast_idle st.Target.d_cur.PathF.rz then " idle" else " busy");
   Buffer.contents b
 
-(* scene <id> <W> <H> I <pixels> ; op ; op ... : one output line, op results separated by " | " *)
-let run_scene toks =
-  let c = { toks = Array.of_list toks; i = 0 } in
+let is_drawing_op (o : Target.op) = match o with
+  | Target.OpFill _ | Target.OpStroke _ | Target.OpFillRect _ | Target.OpClear _ | Target.OpMask _
+  | Target.OpDrawImageAt _ | Target.OpDrawImageSize _ | Target.OpPopLayer -> true
+  | _ -> false
+let exact_coverage_op (o : Target.op) = match o with
+  | Target.OpClear _ | Target.OpMask _ | Target.OpPopLayer -> true | _ -> false
+
+let region_string st o =
+  match Target.probe_region st o with
+  | Base.Ok l -> " # B " ^ String.concat "" (Stdlib.List.map (fun z -> if int_of_z z = 0 then "0" else "1") l)
+  | Base.Err _ -> " # B err"
+
+let scene_header c =
   let id = next c in
   let w = nz c in let h = nz c in
   (match next c with "I" -> () | _ -> failwith "expected I");
   let n = int_of_z w * int_of_z h in
   let px = ntimes (max n 0) (fun () -> nhex c) in
-  let st = ref (Target.dt_new w h px) in
+  (id, Target.dt_new w h px)
+
+(* scene <id> <W> <H> I <pixels> ; op ; op ... : one output line, op results separated by " | ";
+   drawing ops also carry, after " # B ", the region of the destination the call may change *)
+let run_scene toks =
+  let c = { toks = Array.of_list toks; i = 0 } in
+  let (id, st0) = scene_header c in
+  let st = ref st0 in
   let out = Buffer.create 4096 in
   Buffer.add_string out id;
   (try
     while peek c = ";" do
       ignore (next c);
-      let r = (try (let o = nop c in Target.step_op !st o) with Ctor_panic -> Base.Err Base.Unwrap) in
-      (match r with
-       | Base.Ok st' -> st := st'; Buffer.add_string out (" | " ^ state_string st')
-       | Base.Err e -> Buffer.add_string out (" | err " ^ err_name e); raise Exit)
+      let o = (try Some (nop c) with Ctor_panic -> None) in
+      let r = (match o with Some o -> Target.step_op !st o | None -> Base.Err Base.Unwrap) in
+      (match r, o with
+       | Base.Ok st', Some o ->
+         let reg = if is_drawing_op o then region_string !st o else "" in
+         st := st'; Buffer.add_string out (" | " ^ state_string st' ^ reg)
+       | Base.Err e, _ -> Buffer.add_string out (" | err " ^ err_name e); raise Exit
+       | _ -> raise Exit)
     done
   with Exit -> ());
   print_endline (Buffer.contents out)
+
+(* specscene <aug case tokens> @@ <impl result line>: locate the first op whose observable state
+   differs between implementation and model and classify the differing destination pixels:
+     frame   = pixel outside the region the call may change (C02)
+     formula = pixel inside the region whose value no coverage 1..255 explains (C03)
+     cov     = pixel inside the region explained by a different shape coverage (C01/C08 territory)
+     other   = clip state, idle flag, non-destination buffer, panic
+   output: <id> spec <opindex|-1> frame=<n> formula=<n> cov=<n> other=<n> *)
+let parse_state (s : string) =
+  (* returns (surface px, layer px option, rest string) *)
+  let t = Array.of_list (Stdlib.List.filter (fun x -> x <> "") (String.split_on_char ' ' s)) in
+  let n = Array.length t in
+  let i = ref 1 in
+  let surf = ref [] in
+  while !i < n && t.(!i) <> "L" && t.(!i) <> "C" do surf := t.(!i) :: !surf; incr i done;
+  let layer = if !i < n && t.(!i) = "L" then begin
+      i := !i + 5; let l = ref [] in
+      while !i < n && t.(!i) <> "C" do l := t.(!i) :: !l; incr i done; Some (Stdlib.List.rev !l) end else None in
+  let rest = String.concat " " (Array.to_list (Array.sub t !i (n - !i))) in
+  (Stdlib.List.rev !surf, layer, rest)
+
+let run_specscene toks =
+  let (ctoks, itoks) = take_until "@@" toks in
+  let impl_line = String.concat " " itoks in
+  let impl_parts = (match Str.split (Str.regexp_string " | ") impl_line with _ :: r -> r | [] -> []) in
+  let c = { toks = Array.of_list ctoks; i = 0 } in
+  let (id, st0) = scene_header c in
+  let st = ref st0 in
+  let k = ref 0 in
+  let result = ref None in
+  let impl = ref impl_parts in
+  (try
+    while peek c = ";" && !result = None do
+      ignore (next c);
+      let o = (try Some (nop c) with Ctor_panic -> None) in
+      let r = (match o with Some o -> Target.step_op !st o | None -> Base.Err Base.Unwrap) in
+      let iv = (match !impl with x :: tl -> impl := tl; String.trim x | [] -> "missing") in
+      (match r, o with
+       | Base.Ok st', Some o ->
+         let ms = state_string st' in
+         if ms = iv then st := st'
+         else begin
+           if iv = "panic" || iv = "missing" then result := Some (!k, 0, 0, 0, 1)
+           else begin
+             let (isurf, ilayer, irest) = parse_state iv in
+             let (msurf, mlayer, mrest) = parse_state ms in
+             let other = ref (if irest <> mrest then 1 else 0) in
+             let (idest, mdest) = (match ilayer, mlayer with
+               | Some a, Some b -> if isurf <> msurf then incr other; (a, b)
+               | None, None -> (isurf, msurf)
+               | _ -> incr other; ([], [])) in
+             let frame = ref 0 and formula = ref 0 and cov = ref 0 in
+             if is_drawing_op o && Stdlib.List.length idest = Stdlib.List.length mdest then begin
+               let reg = (match Target.probe_region !st o with Base.Ok l -> Array.of_list (Stdlib.List.map int_of_z l) | Base.Err _ -> [||]) in
+               let ia = Array.of_list idest and ma = Array.of_list mdest in
+               let diff = ref [] in
+               Array.iteri (fun j v -> if v <> ma.(j) then diff := j :: !diff) ia;
+               let inside = Stdlib.List.filter (fun j -> j < Array.length reg && reg.(j) <> 0) !diff in
+               frame := Stdlib.List.length !diff - Stdlib.List.length inside;
+               if inside <> [] then begin
+                 if exact_coverage_op o then formula := Stdlib.List.length inside
+                 else begin
+                   let unexplained = ref inside in
+                   let v = ref 1 in
+                   while !unexplained <> [] && !v <= 255 do
+                     (match Target.step_forced !st o (z_of_int !v) with
+                      | Base.Ok stf ->
+                        let fa = Array.of_list (Stdlib.List.map hex (fst (Target.dest_of stf))) in
+                        unexplained := Stdlib.List.filter (fun j -> j >= Array.length fa || fa.(j) <> ia.(j)) !unexplained
+                      | Base.Err _ -> ());
+                     incr v
+                   done;
+                   formula := Stdlib.List.length !unexplained;
+                   cov := Stdlib.List.length inside - !formula
+                 end
+               end
+             end else if idest <> mdest then incr other;
+             result := Some (!k, !frame, !formula, !cov, !other)
+           end
+         end
+       | Base.Err _, _ -> if iv <> "panic" then result := Some (!k, 0, 0, 0, 1) else raise Exit
+       | _ -> raise Exit);
+      incr k
+    done
+  with Exit -> ());
+  (match !result with
+   | Some (k, a, b, cc, d) -> Printf.printf "%s spec %d frame=%d formula=%d cov=%d other=%d\n" id k a b cc d
+   | None -> Printf.printf "%s spec -1 frame=0 formula=0 cov=0 other=0\n" id)
 
 let () =
   try
@@ -215,6 +324,7 @@ let () =
       | "surf" :: rest -> run_surface rest
       | "surfspec" :: rest -> run_surface_spec rest
       | "scene" :: rest -> run_scene rest
+      | "specscene" :: rest -> run_specscene rest
       | t :: _ -> failwith ("unknown case kind " ^ t)
     done
   with End_of_file -> ()
